@@ -420,6 +420,8 @@ class AEval:
             raise AnalysisError('abstract evaluation: display %s at %s' % (a[0], e.loc))
         if k == 'call':
             return self.call(e, env, depth)
+        if k == 'fstr':
+            return ''.join(str(self.ev(x, env, depth)) for x in a[0])
         raise AnalysisError('abstract evaluation: expression kind %s at %s' % (k, e.loc))
 
     def call(self, e, env, depth):
